@@ -87,6 +87,74 @@ func c18ROI(c *vlib.Ctx) {
 		}
 	}
 	var requests int64
+	// verify compares every view of the ROI at one version (GET roi, ptquery, masks) with the block set the spans name
+	verify := func(base string, set map[blk]bool, class string, body []byte, rep map[string]interface{}, boxes []box) {
+		// GET roi
+		g := vsrv.Get(base + "roi")
+		requests++
+		var back [][4]int
+		if err := json.Unmarshal(g.Body, &back); err != nil && len(set) > 0 {
+			c.Violate("roi:get:"+class+":unparsable", fmt.Sprintf("GET roi after POST %s: %s", body, g), rep)
+		} else {
+			got := map[blk]bool{}
+			for _, s := range back {
+				for x := s[2]; x <= s[3]; x++ {
+					got[blk{x, s[1], s[0]}] = true
+				}
+			}
+			c.Eval(int64(len(set) + 1))
+			if d := blkDiff(set, got); d != "" {
+				c.Violate("roi:get:"+class+":block-set", fmt.Sprintf("POST roi %s then GET roi returns %s: %s", body, trunc(string(g.Body), 200), d), rep)
+			}
+		}
+		// ptquery
+		q := vsrv.Post(base+"ptquery", ptsJSON)
+		requests++
+		var ans []bool
+		if err := json.Unmarshal(q.Body, &ans); err != nil || len(ans) != len(pts) {
+			c.Violate("roi:ptquery:"+class+":bad-answer", fmt.Sprintf("ptquery after POST roi %s: %s", body, q), rep)
+		} else {
+			for i, p := range pts {
+				want := set[blk{fdiv(p[0], c18B), fdiv(p[1], c18B), fdiv(p[2], c18B)}]
+				c.Eval(1)
+				if ans[i] != want {
+					pc := "nonneg-point"
+					if p[0] < 0 || p[1] < 0 || p[2] < 0 {
+						pc = "negative-point"
+					}
+					c.Violate("roi:ptquery:"+class+":"+pc, fmt.Sprintf("spans %s: ptquery(%v) = %v, the spans say %v", body, p, ans[i], want), rep)
+					break
+				}
+			}
+			c.Outcome(fmt.Sprintf("roi-pt-%d", len(set)))
+		}
+		// mask
+		for _, bx := range boxes {
+			m := vsrv.Get(fmt.Sprintf("%smask/0_1_2/%d_%d_%d/%d_%d_%d", base, bx.size[0], bx.size[1], bx.size[2], bx.of[0], bx.of[1], bx.of[2]))
+			requests++
+			nvox := bx.size[0] * bx.size[1] * bx.size[2]
+			if !m.OK() || len(m.Body) != nvox {
+				c.Violate("roi:mask:"+class+":"+bx.name+":bad-answer", fmt.Sprintf("spans %s: mask %v+%v: code %d, %d bytes (want %d): %s", body, bx.of, bx.size, m.Code, len(m.Body), nvox, trunc(string(m.Body), 120)), rep)
+				continue
+			}
+			i := 0
+		scan:
+			for z := 0; z < bx.size[2]; z++ {
+				for y := 0; y < bx.size[1]; y++ {
+					for x := 0; x < bx.size[0]; x++ {
+						vx, vy, vz := x+bx.of[0], y+bx.of[1], z+bx.of[2]
+						want := set[blk{fdiv(vx, c18B), fdiv(vy, c18B), fdiv(vz, c18B)}]
+						if (m.Body[i] != 0) != want {
+							c.Violate("roi:mask:"+class+":"+bx.name, fmt.Sprintf("spans %s: mask %v+%v voxel (%d,%d,%d) = %d, the spans say %v", body, bx.of, bx.size, vx, vy, vz, m.Body[i], want), rep)
+							break scan
+						}
+						i++
+					}
+				}
+			}
+			c.Eval(int64(nvox))
+		}
+	}
 	n := len(c18SpanMenu)
 	for mask := 0; mask < 1<<n; mask++ {
 		for order := 0; order < 2; order++ {
@@ -136,73 +204,78 @@ func c18ROI(c *vlib.Ctx) {
 				continue
 			}
 			c.Nontrivial(fmt.Sprintf("roi|%d|%d", mask, order))
-			// GET roi
-			g := vsrv.Get(base + "roi")
-			requests++
-			var back [][4]int
-			if err := json.Unmarshal(g.Body, &back); err != nil && len(set) > 0 {
-				c.Violate("roi:get:"+class+":unparsable", fmt.Sprintf("GET roi after POST %s: %s", body, g), rep)
-			} else {
-				got := map[blk]bool{}
-				for _, s := range back {
-					for x := s[2]; x <= s[3]; x++ {
-						got[blk{x, s[1], s[0]}] = true
-					}
-				}
-				c.Eval(int64(len(set) + 1))
-				if d := blkDiff(set, got); d != "" {
-					c.Violate("roi:get:"+class+":block-set", fmt.Sprintf("POST roi %s then GET roi returns %s: %s", body, trunc(string(g.Body), 200), d), rep)
-				}
-			}
-			// ptquery
-			q := vsrv.Post(base+"ptquery", ptsJSON)
-			requests++
-			var ans []bool
-			if err := json.Unmarshal(q.Body, &ans); err != nil || len(ans) != len(pts) {
-				c.Violate("roi:ptquery:"+class+":bad-answer", fmt.Sprintf("ptquery after POST roi %s: %s", body, q), rep)
-			} else {
-				for i, p := range pts {
-					want := set[blk{fdiv(p[0], c18B), fdiv(p[1], c18B), fdiv(p[2], c18B)}]
-					c.Eval(1)
-					if ans[i] != want {
-						pc := "nonneg-point"
-						if p[0] < 0 || p[1] < 0 || p[2] < 0 {
-							pc = "negative-point"
-						}
-						c.Violate("roi:ptquery:"+class+":"+pc, fmt.Sprintf("spans %s: ptquery(%v) = %v, the spans say %v", body, p, ans[i], want), rep)
-						break
-					}
-				}
-				c.Outcome(fmt.Sprintf("roi-pt-%d", len(set)))
-			}
-			// mask
-			for _, bx := range boxes {
-				m := vsrv.Get(fmt.Sprintf("%smask/0_1_2/%d_%d_%d/%d_%d_%d", base, bx.size[0], bx.size[1], bx.size[2], bx.of[0], bx.of[1], bx.of[2]))
-				requests++
-				nvox := bx.size[0] * bx.size[1] * bx.size[2]
-				if !m.OK() || len(m.Body) != nvox {
-					c.Violate("roi:mask:"+class+":"+bx.name+":bad-answer", fmt.Sprintf("spans %s: mask %v+%v: code %d, %d bytes (want %d): %s", body, bx.of, bx.size, m.Code, len(m.Body), nvox, trunc(string(m.Body), 120)), rep)
-					continue
-				}
-				i := 0
-			scan:
-				for z := 0; z < bx.size[2]; z++ {
-					for y := 0; y < bx.size[1]; y++ {
-						for x := 0; x < bx.size[0]; x++ {
-							vx, vy, vz := x+bx.of[0], y+bx.of[1], z+bx.of[2]
-							want := set[blk{fdiv(vx, c18B), fdiv(vy, c18B), fdiv(vz, c18B)}]
-							if (m.Body[i] != 0) != want {
-								c.Violate("roi:mask:"+class+":"+bx.name, fmt.Sprintf("spans %s: mask %v+%v voxel (%d,%d,%d) = %d, the spans say %v", body, bx.of, bx.size, vx, vy, vz, m.Body[i], want), rep)
-								break scan
-							}
-							i++
-						}
-					}
-				}
-				c.Eval(int64(nvox))
-			}
+			verify(base, set, class, body, rep, boxes)
 		}
 	}
+	// Two versions: span set A at the root, then - in a child of the committed root - span set B (other Z slabs, the same
+	// slabs, nothing) or DELETE roi. Each version must keep answering from its own spans (the instance keeps one pair of
+	// Z extents for all versions, which every write resets).
+	zmenu := [][4]int{{-1, 0, 0, 1}, {0, 0, -1, 0}, {1, 1, 0, 2}, {2, 0, 1, 1}}
+	setOf := func(m int) (spans [][4]int, set map[blk]bool) {
+		set = map[blk]bool{}
+		for i, sp := range zmenu {
+			if m>>i&1 == 1 {
+				spans = append(spans, sp)
+				for x := sp[2]; x <= sp[3]; x++ {
+					set[blk{x, sp[1], sp[0]}] = true
+				}
+			}
+		}
+		return
+	}
+	var pairs int64
+	for ma := 1; ma < 1<<len(zmenu); ma++ {
+		for mb := 0; mb <= 1<<len(zmenu); mb++ { // mb == 16: DELETE roi in the child
+			r2, err := vsrv.NewRepo()
+			if err != nil {
+				c.Violate("harness:roi:repo", err.Error(), nil)
+				return
+			}
+			if err := vsrv.NewInstance(r2, "roi", "r", map[string]string{"BlockSize": fmt.Sprintf("%d,%d,%d", c18B, c18B, c18B)}); err != nil {
+				c.Violate("harness:roi:instance", err.Error(), nil)
+				return
+			}
+			sa, setA := setOf(ma)
+			bodyA, _ := json.Marshal(sa)
+			if r := vsrv.Post("node/"+r2+"/r/roi", bodyA); !r.OK() {
+				c.Violate("roi:post:two-versions:refused", fmt.Sprintf("POST roi %s refused: %s", bodyA, r), nil)
+				continue
+			}
+			vsrv.Commit(r2)
+			child, err := vsrv.NewVersion(r2)
+			if err != nil {
+				c.Violate("harness:roi:newversion", err.Error(), nil)
+				return
+			}
+			var setB map[blk]bool
+			var bodyB []byte
+			if mb == 1<<len(zmenu) {
+				setB, bodyB = map[blk]bool{}, []byte("DELETE")
+				if r := vsrv.Delete("node/" + child + "/r/roi"); !r.OK() {
+					c.Violate("roi:delete:two-versions:refused", fmt.Sprintf("DELETE roi in the child refused: %s", r), nil)
+					continue
+				}
+			} else {
+				var sb [][4]int
+				sb, setB = setOf(mb)
+				bodyB, _ = json.Marshal(sb)
+				if len(sb) == 0 {
+					bodyB = []byte("[]")
+				}
+				if r := vsrv.Post("node/"+child+"/r/roi", bodyB); !r.OK() {
+					c.Violate("roi:post:two-versions:refused", fmt.Sprintf("POST roi %s in the child refused: %s", bodyB, r), nil)
+					continue
+				}
+			}
+			requests += 2
+			pairs++
+			rep := map[string]interface{}{"root_spans_zyx0x1": sa, "then_in_child": string(bodyB), "block_size": c18B}
+			c.Nontrivial(fmt.Sprintf("roi2|%d|%d", ma, mb))
+			verify("node/"+r2+"/r/", setA, "two-versions:parent-after-child-write", []byte(fmt.Sprintf("%s (root; child then wrote %s)", bodyA, bodyB)), rep, boxes[:3])
+			verify("node/"+child+"/r/", setB, "two-versions:child", []byte(fmt.Sprintf("%s (child of a root holding %s)", bodyB, bodyA)), rep, boxes[:3])
+		}
+	}
+	c.Set("roi_two_version_pairs", pairs)
 	c.Set("roi_requests", requests)
 	c.Set("roi_span_sets", 2*(1<<n)-n-1)
 }
